@@ -71,4 +71,5 @@ def build():
         "to_string_lossy().replace([..], \"\") yields some string (the sanitised root component)",
         "what is proved is the STRUCTURE of the mapping for every source: DIR, then (for absolute paths) one component derived from the root only, then the whole path without its root",
     ]
+    ub.closures_ok = 1   # closures without a specification in the slices on the tree the recipe was written for
     return ub
